@@ -355,8 +355,24 @@ func (env *ExprEnv) ident(name string) Val {
 	case "nil":
 		return Val{K: KRef, S: "0"}
 	case "result":
-		if v, ok := env.vars["result_0"]; ok {
-			return v
+		if _, isParam := env.vars["result"]; !isParam {
+			if v, ok := env.vars["result_0"]; ok {
+				return v
+			}
+		}
+	}
+	if env.a != nil && env.a.fn != nil {
+		if _, shadow := env.vars["$nofv:"+name]; !shadow {
+			for i, fv := range env.a.fn.FreeVars {
+				if fv.Name() == name {
+					if cell, ok := env.a.env[fv]; ok {
+						T := derefType(fv.Type())
+						prefix, ref, idx := locOf(cell, T)
+						_ = i
+						return t.load(env.st, prefix, ref, idx, T)
+					}
+				}
+			}
 		}
 	}
 	if v, ok := env.vars[name]; ok {
@@ -690,6 +706,9 @@ func (env *ExprEnv) resolveType(e ast.Expr) types.Type {
 		}
 		if tn, ok := types.Universe.Lookup(e.Name).(*types.TypeName); ok {
 			return tn.Type()
+		}
+		if len(e.Name) == 1 && e.Name[0] >= 'A' && e.Name[0] <= 'Z' {
+			return types.NewTypeParam(types.NewTypeName(token.NoPos, nil, e.Name, nil), types.NewInterfaceType(nil, nil))
 		}
 	case *ast.SelectorExpr:
 		if id, ok := e.X.(*ast.Ident); ok {
